@@ -302,7 +302,16 @@ func runC02(x *xctx) *violation {
 		for _, v := range []uint64{0, 1, 0} {
 			w64(v)
 		}
-		buf.WriteString("00400000-00500000 r-xp 00000000 00:00 0          /bin/prog\n")
+		trailers := []string{
+			"00400000-00500000 r-xp 00000000 00:00 0          /bin/prog\n",
+			"00400000-00500000 r-xp 00000000 fd:01 1234       /bin/prog (deleted)\n",
+			"00400000-00500000 r-xp 00000000 fd:01 1234       (deleted)\n",
+			"00400000-00500000 r-xp 00000000 00:00 0          [vdso]\n00500000-00600000 r-xp 00000000 00:00 0          /lib/libc-2.31.so\n",
+			"00400000-00500000: /bin/prog\n",
+			"00400000-00500000 r-xp 00000000 00:00 0\n",
+			"",
+		}
+		buf.WriteString("MAPPED_LIBRARIES:\n" + trailers[t.Choose(K, len(trailers))])
 		name, data = "generated.profilez", buf.Bytes()
 	}
 	if data == nil {
